@@ -265,6 +265,51 @@ def reencoded_in_tokenize(ctx):
     return False, "no filter_map(convert).map(re-encode).collect() chain with subtraction-dependent deltas in LspProject::tokenize"
 
 
+def rule_verbatim(ctx, rep, rid="R-C15-verbatim"):
+    """Every position the server reports (diagnostic ranges, token starts and lengths) is computed in the text the server stored and
+    is interpreted by the client in the text it sent.  They are the same text only if `Source` stores what it is given and
+    `as_string` returns what is stored: no normalisation of line endings, no trimming, no re-encoding in between."""
+    r = rep.rule(rid, "the document text is stored and handed out verbatim: every Source {..} aggregate takes `data` from the constructor's parameter by move, "
+                      "Source::as_string returns a borrow of `data`, and neither calls a text-transforming function", floor=2)
+    SRC = "ironplcc::source::Source"
+    EDIT = {"replace", "replacen", "lines", "trim", "trim_end", "trim_start", "trim_matches", "trim_end_matches", "trim_start_matches", "to_lowercase", "to_uppercase",
+            "split", "join", "retain", "truncate", "pop", "remove", "insert", "insert_str", "push", "push_str", "strip_prefix", "strip_suffix", "nfc", "chars", "bytes"}
+    n = 0
+    for b in sorted(ctx.prog.bodies.values(), key=lambda x: x.id):
+        if b.f["crate"] != "ironplcc" or "::test" in norm(b.id):
+            continue
+        for i, j, st in b.all_stmts():
+            if st[0] == "=" and st[2][0] == "agg" and isinstance(st[2][1], dict) and st[2][1].get("adt") == SRC:
+                n += 1
+                ops = dict(zip(st[2][1]["fields"], st[2][2]))
+                p0 = op_place(ops.get("data")) if ops.get("data") else None
+                rt = b.root(p0) if p0 is not None else None
+                fn = norm(b.id).replace("ironplcc::", "")
+                inst = "%s|Source { data }" % fn
+                fam = [b] + [cb for cb in ctx.prog.bodies.values() if cb.f["dk"] == "Closure" and cb.f.get("parent") == b.id]
+                edits = sorted({(c.callee or c.u or "").split("::")[-1] for bd in fam for c in bd.calls() if (c.callee or c.u or "").split("::")[-1] in EDIT
+                                and ("str" in (c.callee or "") or "String" in (c.callee or ""))})
+                # helpers of the same module called here that edit text
+                for c in b.calls():
+                    for t in (ctx.prog.get(c.callee) if c.callee else []):
+                        if t.f["crate"] == "ironplcc" and "::source::" in norm(t.id) and t.id != b.id and (t.local_ty(0) or "").endswith("String"):
+                            edits.append("%s()" % norm(t.id).split("::")[-1])
+                if rt is not None and 1 <= rt[0] <= b.f["argc"] and not rt[1] and not edits:
+                    r.ok(inst, loc_str(b.f, st[3]), "data = parameter, moved")
+                else:
+                    r.finding(inst + "|text-transformed", loc_str(b.f, st[3]), "the stored text is not the text that was passed in (%s): positions computed in the stored text "
+                              "do not fit the client's document (a multi-line comment in a CRLF file is one unit short per line break)" % (", ".join(edits) or "data is not the parameter"))
+    ab = ctx.prog.get(SRC + "::as_string")
+    if ab:
+        b = ab[0]
+        n += 1
+        bad = sorted({(c.callee or c.u or "").split("::")[-1] for c in b.calls()} - {"borrow", "as_str", "deref", "as_ref"})
+        if bad:
+            r.finding("Source::as_string|transforms", "%s:%d" % (b.f["file"], b.f["line"]), "as_string calls %s" % ", ".join(bad))
+        else:
+            r.ok("Source::as_string|borrow of data", "%s:%d" % (b.f["file"], b.f["line"]))
+
+
 def rule_delta(ctx, rep):
     r = rep.rule("R-C15-delta", "delta_line / delta_start of the SemanticTokens that reach the response are differences: they data-depend on a "
                                 "subtraction (relative encoding). A conversion that stores absolute positions is accepted only when its input type is built "
@@ -379,4 +424,5 @@ def run(ctx, rep):
     rule_tile(ctx, rep, rid="R-C15-tile")
     from rules import c15_units
     c15_units.run(ctx, rep)
+    rule_verbatim(ctx, rep)
     # R-C05-noop (column after a comment) is decided under C05
